@@ -1133,6 +1133,13 @@ def c18(ctx):
             elif hdr is None:
                 src = src + "\n// Code generated by x. DO NOT EDIT.\n"
             else:
+                if not hdr.endswith("\n\n") and hdr:
+                    # a header meant to be the package comment must stand directly above the package clause: the comments the
+                    # base file starts with (a copyright block followed by a blank line) would detach it (false alarm of the
+                    # thorough sweep, seed 91)
+                    mm = re.search(r"^package ", src, re.M)
+                    if mm:
+                        src = src[mm.start():]
                 src = hdr + src
             files = {"g/" + name.replace("-", "_") + ".go": src, "plain.go": base["src"]}
             if hdr is not None:
@@ -1454,12 +1461,61 @@ def api_parse_check(ctx, cases):
         ctx.violation("library API returned content that does not parse", {"input": {"patches": c["patches"], "src": c["src"]}})
 
 # --- C14 -------------------------------------------------------------------
+REPEAT_TABLE = [
+    # a rewrite whose old and new lists can be paired in more than one way (results, statements, fields)
+    ("# Errors go last.\n@@\nvar f identifier\nvar e expression\n@@\n-func f(...) (error, int, int) {\n-\treturn e, 0, 0\n+func f(...) (*Pos, error) {\n+\treturn nil, e\n }\n",
+     "package p\n\nimport \"errors\"\n\nvar errNotFound = errors.New(\"not found\")\n\n// find looks up k.\nfunc find(k string) (error, int, int) {\n\treturn errNotFound, 0, 0\n}\n"),
+    ("@@\nvar a, b, c expression\n@@\n-call(a, b, c)\n+call(c, a)\n",
+     "package p\n\nfunc f() {\n\t// before\n\tcall(x, // one\n\t\ty, // two\n\t\tz) // three\n\t// after\n}\n"),
+    ("@@\nvar x identifier\n@@\n-x.Lock()\n-defer x.Unlock()\n+defer guard(x)()\n+trace()\n+trace()\n",
+     "package p\n\nfunc f(mu M) {\n\t// take it\n\tmu.Lock()\n\tdefer mu.Unlock() // release\n\n\t// work\n\twork()\n}\n"),
+]
+
+def c14_repeat(ctx):
+    """the same command on the same inputs, in fresh processes: every run must print the same bytes"""
+    rng = random.Random(ctx.seed + 14)
+    jobs = [(f"t{k}", [p], s) for k, (p, s) in enumerate(REPEAT_TABLE)]
+    for i, c in enumerate(gen_cases(ctx, "c05", 120 if ctx.tier == "quick" else 2500, ctx.seed + 5)):
+        if len(c.get("patches", [])) >= 1:
+            src = inject_comments(rng, c["src"]) or c["src"]
+            jobs.append((f"r{i}", c["patches"], src))
+    reps = 5 if ctx.tier == "quick" else 9
+    def one(job):
+        cid, patches, src = job
+        root = ctx.scratch("rep")
+        with open(os.path.join(root, "a.go"), "w") as f:
+            f.write(src)
+        pargs = []
+        for k, p in enumerate(patches):
+            with open(os.path.join(root, f"p{k}.patch"), "w") as f:
+                f.write(p)
+            pargs += ["-p", f"p{k}.patch"]
+        outs = []
+        for _ in range(reps):
+            code, out, err = cl.gopatch(ctx.gopatch, root, pargs + ["--print-only", "a.go"])
+            outs.append((code, out, err))
+        shutil.rmtree(root, ignore_errors=True)
+        return job, outs
+    with ThreadPoolExecutor(max_workers=16) as ex:
+        for (cid, patches, src), outs in ex.map(one, jobs):
+            ctx.evaluations += 1
+            ctx.count("repeated_runs")
+            if outs[0][0] == 0 and outs[0][1].decode("utf-8", "replace") != src:
+                ctx.nontrivial.add("repeat:" + cid)
+            diff = [k for k, o in enumerate(outs) if o != outs[0]]
+            if diff:
+                ctx.violation(f"run {diff[0] + 1} of the same command on the same inputs differs from the first run (of {reps} runs, {len(diff)} differ)",
+                              {"input": {"patches": patches, "files": {"a.go": src}, "args": ["--print-only", "a.go"]},
+                               "first": outs[0][1].decode("utf-8", "replace")[-1500:], "other": outs[diff[0]][1].decode("utf-8", "replace")[-1500:],
+                               "reproduce": "repeat: gopatch -p p0.patch --print-only a.go"})
+
 @prop("C14")
 def c14(ctx):
     ctx.rule = CLI_RULE + (" For this property every grouped run is predicted from solo runs of each file (file independence), the "
                            "target arguments are permuted / repeated / given as directories and files mixed, neighbours that match, "
                            "fail to parse or are generated are mixed in, and the library API is called repeatedly and from 8 goroutines "
-                           "on one parsed patch.")
+                           "on one parsed patch. A batch of (patch, file) pairs with comments is run several times in fresh processes: every run "
+                           "must print the same bytes.")
     rng = random.Random(ctx.seed)
     n = 25 if ctx.tier == "quick" else 600
     cases = gen_cases(ctx, "mix", 150 if ctx.tier == "quick" else 2000, ctx.seed)
@@ -1521,6 +1577,7 @@ def c14(ctx):
                 ctx.violation("grouped run differs from the solo runs of its files: " + "; ".join(found[:3]), {
                     "input": {"patches": sc.patches, "files": sc.files, "flags": flags_of(opts), "args": targs},
                     "observed": {"exit": obs["exit"], "stderr": obs["stderr"][-1500:]}, "problems": found})
+    c14_repeat(ctx)
     # the same files named in several forms, through excluded directories, in different orders
     arg_forms_family(ctx, "a file's result depends on how and where it was named among the arguments")
     # the same concurrent calls under the Go race detector: a parsed patch that is written to while it is applied
@@ -2195,11 +2252,15 @@ WORD = lambda w: re.compile(r"(?<![A-Za-z0-9_])" + re.escape(w) + r"(?![A-Za-z0-
 
 GO_KEYWORDS = set("break default func interface select case defer go map struct chan else goto package switch const fallthrough if range type continue for import return var nil true false iota _ int string bool byte error any".split())
 
-def layout_variant(rng, patch, file_words=None):
-    """one meaning-preserving re-layout of a single-change patch; returns (text, [transformations])"""
+def layout_variant(rng, patch, file_words=None, t=None, rng2=None):
+    """one meaning-preserving re-layout of a single-change patch; returns (text, [transformations]); `t` selects the
+    transformation (drawn if None); `rng2` decides about the unterminated last line, so that adding such independent
+    decorations does not shift the choices drawn from `rng`"""
     desc, header, meta, body = split_patch_text(patch)
     done = []
-    t = rng.randrange(9)
+    if t is None:
+        t = rng.randrange(9)
+    rng2 = rng2 or rng
     if t == 7:      # re-wrap: break the lines of the pattern after commas, identically on both sides
         out = []
         for l in body:
@@ -2279,7 +2340,7 @@ def layout_variant(rng, patch, file_words=None):
         body = [respace(l) for l in body]
         done.append("respace")
     text = "\n".join(desc + [header] + meta + ["@@"] + body) + "\n"
-    if rng.random() < 0.25 and body and body[-1].strip():
+    if rng2.random() < 0.25 and body and body[-1].strip():
         # the last line of the file is not terminated
         text = text[:-1]
         done.append("no-final-newline")
@@ -2328,7 +2389,9 @@ def c13(ctx):
     for i, c in enumerate(cases):
         try:
             fw = sorted(set(re.findall(r"[A-Za-z_]\w*", c["src"])))
-            variants = [layout_variant(rng, c["patches"][0], fw) for _ in range(3)]
+            # every transformation in turn (three per case), so that what a case is subjected to does not drift when the
+            # generator or the list of transformations grows
+            variants = [layout_variant(rng, c["patches"][0], fw, t=(3 * i + j) % 9, rng2=random.Random(f"{ctx.seed}/{i}/{j}")) for j in range(3)]
         except Exception:
             continue
         batch.append({"id": f"o{i}", "patches": c["patches"], "src": c["src"]})
@@ -2438,6 +2501,13 @@ ILL_TYPED = [
     ("@@\n@@\n+for ... { bar() }\n-for ... { foo() }\n", "package a\n\nfunc f() { for i := 0; i < 3; i++ { foo() } }\n"),
     ("@@\nvar x expression\n@@\n-x\n+y\n", "package a\n\nimport \"fmt\"\n\nfunc f(a int) { fmt.Println(a) }\n"),
     ("@@\nvar x identifier\n@@\n-x\n+x.y\n", "package a\n\nfunc f(a int) { _ = a }\n\ntype T struct{ a int }\n"),
+    # an elision on the '+' side only: there is nothing it could stand for
+    ("@@\nvar x expression\n@@\n-foo(x)\n+bar(x, ...)\n", "package a\n\nfunc f() { foo(1) }\n"),
+    ("@@\nvar x expression\n@@\n-foo(x)\n+bar(..., x)\n", "package a\n\nfunc f() { foo(1) }\n"),
+    ("@@\n@@\n-type T struct{}\n+type T struct{ ... }\n", "package a\n\ntype T struct{}\n"),
+    ("@@\nvar f identifier\n@@\n-func f() {}\n+func f(...) {}\n", "package a\n\nfunc g() {}\n"),
+    ("@@\n@@\n-if ok {\n-  foo()\n-}\n+if ok {\n+  ...\n+}\n", "package a\n\nfunc f() {\n\tif ok {\n\t\tfoo()\n\t}\n}\n"),
+    ("@@\nvar x expression\n@@\n+bar(x, ...)\n-foo(x)\n", "package a\n\nfunc f() { foo(1) }\n"),
     # an ill-typed change after one that succeeded, and before one that would
     ("@@\nvar x expression\n@@\n-foo(x)\n+bar(x)\n\n@@\nvar y expression\n@@\n-y = baz(...)\n+... = y\n", "package a\n\nfunc f() {\n\tfoo(1)\n\ty = baz()\n}\n"),
     ("@@\nvar y expression\n@@\n-y = baz(...)\n+... = y\n\n@@\nvar x expression\n@@\n-foo(x)\n+bar(x)\n", "package a\n\nfunc f() {\n\tfoo(1)\n\ty = baz()\n}\n"),
